@@ -230,6 +230,12 @@ def run_c15(ck, fb, fbd):
         (ck.ok if ok else lambda r, w, t: ck.violate(r, w, t, "C15.perm:%s" % name))("C15.perm", f.where, "%s creates %d cells, each replacing exactly one vertex, at pairwise different positions %s" % (name, n_new, pos))
     tet_occupied_rule(ck, fb, f4[0])
     get_label_rule(ck, fb)
+    opposite_rule(ck, fb)
+    # split_edge / split_face / collapse_edge delete cells in deferred mode and add new ones on the same halffaces: the
+    # delete core must not reset a halfface's incident cell that already names the replacement (shared with C01/C02/C04)
+    from . import lockstep
+    lc = lockstep.Ctx(ck, fb)
+    lockstep.owner_rule(lc, lockstep.delete_cores(lc), lockstep.elem_effects(lc))
     # collapse_edge prediction
     ck.rule("C15.predict", "collapse_edge/split_* run with deferred deletion forced on: an index prediction that follows a deletion in the same function must use physical counts (n_vertices()), never logical ones (n_logical_*), and the mode is restored on every path (P)")
     n_pred = 0
@@ -310,6 +316,76 @@ def tet_occupied_rule(ck, fb, f):
         return
     (ck.ok if occ else lambda r, w, t: ck.violate(r, w, t, "C15.occupied:occupied"))("C15.occupied", f.where, "add_cell(vertices, check) rejects a tetrahedron with a halfface that already has an incident cell")
     (ck.ok if conn else lambda r, w, t: ck.violate(r, w, t, "C15.occupied:connected"))("C15.occupied", f.where, "add_cell(vertices, check) rejects unless the halffaces use #halfedges == 2 * #edges")
+
+
+def opposite_rule(ck, fb):
+    """halfface_opposite_vertex / vertex_opposite_halfface are defined by the stored cell, not by a position convention"""
+    from .canon import Canon, split_eq
+    ck.rule("C15.opposite", "vertex_opposite_halfface(c, v) returns a halfface taken from cell(c).halffaces() under the facts that none of its three vertices is v (and the invalid handle otherwise); halfface_opposite_vertex(h) is the apex get_cell_vertices(h)[3] of a non-boundary halfface and invalid on the boundary.  A position table (halfface k is opposite vertex k') presupposes the halfface order of add_cell(vertices) - cells added from halffaces have none - and is not judged")
+    fs = [f for f in fb.by_cls.get(TET, []) if f.name == "vertex_opposite_halfface" and f.has_cfg]
+    gs = [f for f in fb.by_cls.get(TET, []) if f.name == "halfface_opposite_vertex" and f.has_cfg]
+    if len(fs) != 1 or len(gs) != 1:
+        raise AnalysisBroken("anchor vanished: TetrahedralMeshTopologyKernel::vertex_opposite_halfface / halfface_opposite_vertex")
+    f = fs[0]
+    cn = Canon(f)
+    hits, other, invalid = [], [], 0
+    for b, i, x in f.tops():
+        if x.get("k") != "ret" or b not in f.reach():
+            continue
+        r = cn.s(x.get("x"))
+        if r in ("InvalidHalfFaceHandle", "(HFH)HFH(-1)", "HFH(-1)", "HFH()"):
+            invalid += 1
+            continue
+        m = re.fullmatch(r"each\((cell\(P0\)\.halffaces\(\))\)", r)
+        if not m:
+            other.append((b, x, r))
+            continue
+        ne = set()
+        for s_, p_, c_ in cn.facts(b):
+            q = split_eq(s_)
+            if q and ((q[0] == "!=") == bool(p_)):
+                for u, v in ((q[1], q[2]), (q[2], q[1])):
+                    mm = re.fullmatch(r"get_halfface_vertices\(%s\)\[(\d)\w*\]" % re.escape(r), v)
+                    if u == "P1" and mm:
+                        ne.add(int(mm.group(1)))
+        hits.append((b, x, ne))
+    positional = [o for o in other if re.fullmatch(r"cell\(P0\)\.halffaces\(\)\[.*\]", o[2]) and not re.fullmatch(r"cell\(P0\)\.halffaces\(\)\[0\w*\]", o[2])]
+    unordered = None
+    if positional:
+        # premise, read from the code: the tetrahedral add_cell(halffaces) hands the caller's order to the base class
+        # unchanged, so the stored order of halffaces 1..3 follows no convention
+        ac = c11.handle_fns(fb, TET, "add_cell")
+        if len(ac) == 1:
+            ca = Canon(ac[0])
+            dl = [x for b, i, x in ac[0].nodes(("call",)) if x.get("pn") == c11.TK + "::add_cell" and b in ac[0].reach()]
+            unordered = bool(dl) and all(ca.s(x["a"][0]) in ("P0", "move(P0)", "std::move(P0)") for x in dl if x.get("a"))
+    if positional and unordered and len(positional) == len(other):
+        for b, x, r in positional:
+            ck.violate("C15.opposite", f.loc(x), "vertex_opposite_halfface selects the halfface by its vertices, not by its position in the cell: %s presupposes a halfface order, but TetrahedralMeshTopologyKernel::add_cell(halffaces) stores the caller's order unchanged" % r[:70], "C15.opposite:voh:positional")
+    elif other or not hits:
+        ck.cannot_judge("C15.opposite %s: vertex_opposite_halfface does not return an element of cell(c).halffaces() selected by its vertices (%s) - a positional formulation is not judged" % (f.where, [o[2][:60] for o in other][:2]))
+    else:
+        for b, x, ne in hits:
+            ok = ne == {0, 1, 2}
+            (ck.ok if ok else lambda r_, w_, t_: ck.violate(r_, w_, t_, "C15.opposite:voh"))("C15.opposite", f.loc(x), "vertex_opposite_halfface returns the halfface only when all three of its vertices differ from v (tested positions %s)" % sorted(ne))
+        (ck.ok if invalid >= 1 else lambda r_, w_, t_: ck.violate(r_, w_, t_, "C15.opposite:voh:invalid"))("C15.opposite", f.where, "vertex_opposite_halfface returns the invalid handle when no halfface qualifies")
+    g = gs[0]
+    cg = Canon(g)
+    rets = [cg.s(x.get("x")) for b, i, x in g.tops() if x.get("k") == "ret" and b in g.reach()]
+    ok = rets == ["(is_boundary(P0) ? InvalidVertexHandle : get_cell_vertices(P0)[3])"]
+    if not ok:
+        # statement form: if (is_boundary(h)) return Invalid; return get_cell_vertices(h)[3];
+        by = {}
+        for b, i, x in g.tops():
+            if x.get("k") == "ret" and b in g.reach():
+                by[cg.s(x.get("x"))] = {(s_, p_) for s_, p_, c_ in cg.facts(b)}
+        ok = set(by) == {"InvalidVertexHandle", "get_cell_vertices(P0)[3]"} and ("is_boundary(P0)", True) in by["InvalidVertexHandle"] and ("is_boundary(P0)", False) in by["get_cell_vertices(P0)[3]"]
+    if ok:
+        ck.ok("C15.opposite", g.where, "halfface_opposite_vertex = boundary ? invalid : get_cell_vertices(h)[3]")
+    elif any("get_cell_vertices(P0)[" in r_ for r_ in rets):
+        ck.violate("C15.opposite", g.where, "halfface_opposite_vertex = boundary ? invalid : get_cell_vertices(h)[3] (found %s)" % rets, "C15.opposite:hov")
+    else:
+        ck.cannot_judge("C15.opposite %s: halfface_opposite_vertex is not formulated through get_cell_vertices(h) (%s)" % (g.where, rets[:2]))
 
 
 def get_label_rule(ck, fb):
@@ -480,6 +556,8 @@ def orientation_witness(ck, fb, consts, g):
 
 
 def run_c16(ck, fb, fbd):
+    from .hexwalk import hexwalk_rule
+    hexwalk_rule(ck, fb)
     ck.rule("C16.layout", "add_cell(8 vertices): the six vertex quadruples form a closed oriented cube surface (24 directed edges, each once, each reverse once; 8 vertices of degree 3), quadruples 2k and 2k+1 are disjoint, walking the first quadruple's edges meets quadruples 2,4,3,5 in cyclic order, the looked-up quadruples equal the created ones, lookups use find_halfface_extensive, and the halffaces are stored in that order")
     f = [g for g in fb.by_cls.get(HEX, []) if g.name == "add_cell" and g.has_cfg and len(g.d["params"]) == 2 and "VH" in g.d["params"][0]["t"]]
     if not f:
